@@ -193,6 +193,10 @@ func (p project) addTypes(root *jschema.JSchema) error {
 			shareCache[key] = objs[i]
 		}
 		if p.all {
+			// a failing registration of a type on a type is remembered with the objects (it is asked for once only)
+			if e, ok := shareCache["ERR|"+p.sig()]; ok {
+				return e.(error)
+			}
 			for i := range p.types {
 				js, ok := objs[i].(*jschema.JSchema)
 				if !ok || !fresh[i] {
@@ -200,7 +204,9 @@ func (p project) addTypes(root *jschema.JSchema) error {
 				}
 				for j, u := range p.types {
 					if err := js.AddType(u.name, objs[j]); err != nil {
-						return fmt.Errorf("addtype:%s", errAt(err))
+						e := fmt.Errorf("addtype:%s", errAt(err))
+						shareCache["ERR|"+p.sig()] = e
+						return e
 					}
 				}
 			}
